@@ -449,6 +449,12 @@ impl FramedReader {
         }
     }
 
+    /// Forget any partially received frame. Called when a session starts on a new connection
+    pub(crate) fn reset(&mut self) {
+        self.parser.reset();
+        self.buffer.clear();
+    }
+
     pub(crate) async fn next_frame(
         &mut self,
         io: &mut PhysLayer,
